@@ -92,6 +92,23 @@ Definition decimal_Q (neg : bool) (ip fp : list N) : Q :=
   let a := Qmake (Z.of_N (pos_val (ip ++ fp))) (Z.to_pos (10 ^ Z.of_nat (length fp))) in
   if neg then Qopp a else a.
 
+(* decimal literals with an exponent  [+-] digits [. digits] (e|E) [+-] digits  with at most four
+   exponent digits (Go stops accumulating the exponent at 10000) *)
+Definition DecimalExpLit (v : list N) (neg : bool) (ip fp : list N) (eneg : bool) (ed : list N) : Prop :=
+  Forall (fun d => is_digit d = true) ip /\ Forall (fun d => is_digit d = true) fp /\
+  (ip <> [] \/ fp <> []) /\
+  Forall (fun d => is_digit d = true) ed /\ ed <> [] /\ (length ed <= 4)%nat /\
+  exists sg esg ec mant,
+    (sg = [] /\ neg = false \/ sg = [43] /\ neg = false \/ sg = [45] /\ neg = true) /\
+    (esg = [] /\ eneg = false \/ esg = [43] /\ eneg = false \/ esg = [45] /\ eneg = true) /\
+    (ec = 101 \/ ec = 69) /\
+    (mant = ip ++ 46 :: fp \/ (fp = [] /\ mant = ip)) /\
+    v = sg ++ mant ++ ec :: esg ++ ed.
+
+Definition exp_value (eneg : bool) (ed : list N) : Z :=
+  if eneg then (- Z.of_N (pos_val ed))%Z else Z.of_N (pos_val ed).
+
+
 (* ---------------------------------------------------------------- the documented domain *)
 Section Doc.
   Variable grad_ok : list N -> bool.
